@@ -28,11 +28,6 @@ def _analyse_sibling(chk, r1, r2, r3, f: FuncInfo, br) -> Dict[str, object]:
         raise AnalysisError(f"{f.qualname}: the temperature series is no longer taken as {DF}['temperature']")
     TS = pc.name("_TS_")
     # ---- R09.1: the temperature frame comes from the instantaneous (mean) branch and is never divided by coverage
-    TF = "temperature_features"
-    for st_ in ast.walk(f.node):   # the frame as_freq's result is bound to, whatever it is called
-        if isinstance(st_, ast.Assign) and isinstance(st_.targets[0], ast.Name) and any(isinstance(c_, ast.Call) and unparse(c_.func).split(".")[-1] == "as_freq" for c_ in ast.walk(st_.value)):
-            TF = st_.targets[0].id
-            break
     sites = rescale_sites(chk, f)
     for s, base in sites:
         kinds = frame_kind(chk, f, s, base, br)
@@ -120,18 +115,15 @@ def _analyse_sibling(chk, r1, r2, r3, f: FuncInfo, br) -> Dict[str, object]:
                f"{f.qualname}: the missing-temperature warning is filed iff a meter day was blanked; interpreted: {warn_bad2[:3]}")
     r3.inst(f"{f.key}|hourly-outcomes[{len(hs)}]", {"table": [list(t) for t in table]})
     # ---- R09.2 frequency-kind typing of the count columns on the non-hourly route
+    from engine.dataflow import backward_slice_exprs as _bse
     for s in cfg.stmts():
-        if isinstance(s, ast.Assign) and isinstance(s.targets[0], ast.Subscript) and unparse(s.targets[0].value) == TF and const_str(s.targets[0].slice) in ("temperature_null", "temperature_not_null"):
+        if isinstance(s, ast.Assign) and isinstance(s.targets[0], ast.Subscript) and isinstance(s.targets[0].value, ast.Name) and const_str(s.targets[0].slice) in ("temperature_null", "temperature_not_null"):
             col = const_str(s.targets[0].slice)
             src_raw = unparse(s.value).startswith(TS + ".")
-            # kinds of the frame at this statement: DAILY if any reaching definition derives from as_freq(..., 'D')
-            daily = False
-            for d in rd.reaching(s, TF):
-                v = rd.value_of(d)
-                if v is not None and ("as_freq" in unparse(v) or (f".reindex({TF}.index)" in unparse(v))):
-                    daily = True
-                elif v is not None and "drop(" in unparse(v):
-                    daily = True
+            # kind of the frame stored into, at this statement: DAILY if anything that flows into it derives from as_freq(..., 'D') (whatever the
+            # intermediate frames are called)
+            frame_name = ast.Name(id=s.targets[0].value.id, ctx=ast.Load())
+            daily = any(isinstance(c_, ast.Call) and unparse(c_.func).split(".")[-1] == "as_freq" for e_ in _bse(rd, s, frame_name, 10) for c_ in ast.walk(e_))
             resampled = ".resample(" in unparse(s.value) or ".groupby(" in unparse(s.value)
             r2.require(not (daily and src_raw and not resampled), f"{f.key}|count-column:{col}", f.where(s),
                        f"{f.qualname}: `{unparse(s)[:90]}` stores the *raw* (sub-daily) series' flags into the daily frame: alignment keeps only the midnight stamps, so the per-day "
